@@ -55,9 +55,9 @@ theorem truncated_frame_not_parsed (form sform : SumForm) (mode : OvMode) (m : M
 
 /-- Once a connection is failed no later step appends a byte, completes a frame or un-fails it
 (whatever the endpoint's facts). -/
-theorem failed_is_final (f : Facts) (c : Conn) (hf : c.failed = true) (later : List Ev) :
-    (run f later c).stream = c.stream ∧ (run f later c).done = c.done ∧
-    (run f later c).failed = true := by
+theorem failed_is_final (f : Facts) (c : Conn Message) (hf : c.failed = true) (later : List (Ev Message)) :
+    (run mlen f later c).stream = c.stream ∧ (run mlen f later c).done = c.done ∧
+    (run mlen f later c).failed = true := by
   obtain ⟨h1, h2, h3⟩ := run_failed f later c hf
   exact ⟨by simp [Conn.stream, h2], h3, h1⟩
 
@@ -68,16 +68,16 @@ empty or a proper prefix of one consistent frame; a non-empty `tail` belongs eit
 the lock holder is still writing, or to an interrupted frame — and then the connection is failed and
 no later step appends anything. -/
 theorem whole_frames (f : Facts) (hx : f.exclusive = true) (hf : f.failOnInterrupt = true)
-    (evs : List Ev) (hwf : ∀ e ∈ evs, e.Wf) :
-    let c := run f evs Conn.init
+    (evs : List (Ev Message)) (hwf : ∀ e ∈ evs, e.Wf) :
+    let c := run mlen f evs Conn.init
     (∀ m ∈ c.done, m.WF) ∧
     ∃ tail : Bytes,
       c.stream = (c.done.map Message.toVec).flatten ++ tail ∧
       (tail = [] ∨ ∃ (m : Message) (off : Nat), m.WF ∧ off < m.toVec.length ∧ tail = m.toVec.take off) ∧
       (tail ≠ [] →
         (c.failed = false ∧ ∃ w m off, c.lock = some w ∧ c.cur w = some (m, off) ∧ tail = m.toVec.take off) ∨
-        (c.failed = true ∧ ∀ later : List Ev,
-            (run f later c).stream = c.stream ∧ (run f later c).done = c.done)) := by
+        (c.failed = true ∧ ∀ later : List (Ev Message),
+            (run mlen f later c).stream = c.stream ∧ (run mlen f later c).done = c.done)) := by
   have hfb : f = both := by cases f; simp_all [both]
   subst hfb
   intro c
@@ -103,12 +103,12 @@ theorem whole_frames (f : Facts) (hx : f.exclusive = true) (hf : f.failOnInterru
 (every started frame was completed or interrupted), a non-empty torn tail means the connection is
 failed, and the stream never changes again. -/
 theorem whole_frames_quiescent (f : Facts) (hx : f.exclusive = true) (hf : f.failOnInterrupt = true)
-    (evs : List Ev) (hwf : ∀ e ∈ evs, e.Wf) (hq : (run f evs Conn.init).lock = none) :
-    let c := run f evs Conn.init
+    (evs : List (Ev Message)) (hwf : ∀ e ∈ evs, e.Wf) (hq : (run mlen f evs Conn.init).lock = none) :
+    let c := run mlen f evs Conn.init
     ∃ tail : Bytes,
       c.stream = (c.done.map Message.toVec).flatten ++ tail ∧
       (tail ≠ [] → c.failed = true ∧
-        ∀ later : List Ev, (run f later c).stream = c.stream) := by
+        ∀ later : List (Ev Message), (run mlen f later c).stream = c.stream) := by
   intro c
   obtain ⟨_, tail, hs, _, hp⟩ := whole_frames f hx hf evs hwf
   refine ⟨tail, hs, fun hne => ?_⟩
@@ -118,17 +118,17 @@ theorem whole_frames_quiescent (f : Facts) (hx : f.exclusive = true) (hf : f.fai
 
 /-- The connection is failed instead: interrupting a frame of which at least one byte is on the wire
 fails the connection (endpoint with `failOnInterrupt`). -/
-theorem interrupted_frame_fails_connection (f : Facts) (hf : f.failOnInterrupt = true) (c : Conn)
+theorem interrupted_frame_fails_connection (f : Facts) (hf : f.failOnInterrupt = true) (c : Conn Message)
     (w : Nat) (m : Message) (off : Nat) (hc : c.cur w = some (m, off)) (hpos : 0 < off) :
-    (step f c (.interrupt w)).failed = true := by
+    (step mlen f c (.interrupt w)).failed = true := by
   rw [step_interrupt_some f c w m off hc]; simp [hf, hpos]
 
 /-- **Re-synchronisation.**  What the peer recovers from the stream of an endpoint with both facts,
 using nothing but declared lengths: exactly the completed frames, in order, and the torn tail (which
 it never mistakes for a frame). -/
 theorem peer_resync (form sform : SumForm) (mode : OvMode) (f : Facts) (hx : f.exclusive = true)
-    (hf : f.failOnInterrupt = true) (evs : List Ev) (hwf : ∀ e ∈ evs, e.Wf) :
-    let c := run f evs Conn.init
+    (hf : f.failOnInterrupt = true) (evs : List (Ev Message)) (hwf : ∀ e ∈ evs, e.Wf) :
+    let c := run mlen f evs Conn.init
     ∃ tail : Bytes, c.stream = (c.done.map Message.toVec).flatten ++ tail ∧
       parseFrames form sform mode (c.done.length + 1) c.stream = (c.done, tail) := by
   intro c
@@ -150,14 +150,14 @@ theorem m2_wf : m2.WF := Builder.build_wf _ (by decide) (by decide) (by decide) 
 
 /-- The F5/F6/F7 shape: writer 0's frame is interrupted after 20 bytes, the connection stays in
 service, writer 1's frame follows. -/
-def tornSchedule : List Ev :=
+def tornSchedule : List (Ev Message) :=
   [.submit 0 m1, .progress 0 20, .interrupt 0, .submit 1 m2, .progress 1 1000]
 
 /-- Without `failOnInterrupt` (lock discipline intact): a frame is completed *after* the torn one, the
 connection is not failed, the stream is the 20 torn bytes followed by the whole second frame, and a
 peer splitting by declared lengths recovers nothing — not even the completed frame. -/
 theorem torn_without_fail :
-    let c := run ⟨true, false⟩ tornSchedule Conn.init
+    let c := run mlen ⟨true, false⟩ tornSchedule Conn.init
     (∀ e ∈ tornSchedule, e.Wf) ∧ c.failed = false ∧ c.lock = none ∧ c.done = [m2] ∧
     c.stream = m1.toVec.take 20 ++ m2.toVec ∧
     (parseFrames .checked .unchecked .checks 8 c.stream).1 = [] := by
@@ -168,19 +168,19 @@ theorem torn_without_fail :
 
 /-- The same schedule on an endpoint that has both facts: nothing follows the torn frame. -/
 theorem torn_with_fail :
-    let c := run both tornSchedule Conn.init
+    let c := run mlen both tornSchedule Conn.init
     c.failed = true ∧ c.done = [] ∧ c.stream = m1.toVec.take 20 := by
   refine ⟨by decide, by decide, by decide⟩
 
 /-- Two writers whose writes alternate. -/
-def interleavedSchedule : List Ev :=
+def interleavedSchedule : List (Ev Message) :=
   [.submit 0 m1, .submit 1 m2, .progress 0 30, .progress 1 30, .progress 0 1000, .progress 1 1000]
 
 /-- Without `exclusive` (no interrupt at all, `failOnInterrupt` intact): both frames complete, the
 connection is healthy, yet the stream is neither order of the two frames and splitting by declared
 lengths recovers nothing. -/
 theorem interleaved_without_lock :
-    let c := run ⟨false, true⟩ interleavedSchedule Conn.init
+    let c := run mlen ⟨false, true⟩ interleavedSchedule Conn.init
     c.failed = false ∧ c.done = [m1, m2] ∧
     c.stream = m1.toVec.take 30 ++ m2.toVec.take 30 ++ m1.toVec.drop 30 ++ m2.toVec.drop 30 ∧
     c.stream ≠ m1.toVec ++ m2.toVec ∧ c.stream ≠ m2.toVec ++ m1.toVec ∧
@@ -189,7 +189,7 @@ theorem interleaved_without_lock :
 
 /-- The same schedule under the lock: writer 1's early write waits for the lock, the frames come out whole. -/
 theorem interleaved_with_lock :
-    let c := run both interleavedSchedule Conn.init
+    let c := run mlen both interleavedSchedule Conn.init
     c.stream = m1.toVec ++ m2.toVec ∧ c.done = [m1, m2] ∧ c.lock = none := by
   refine ⟨by decide, by decide, by decide⟩
 
@@ -197,21 +197,21 @@ theorem interleaved_with_lock :
 
 /-- A schedule meeting the hypotheses of `whole_frames` with three writers, fragmentation, a completed
 frame, an interrupt before the first byte (harmless) and an interrupt mid-frame. -/
-def sampleSchedule : List Ev :=
+def sampleSchedule : List (Ev Message) :=
   [.submit 0 m1, .submit 1 m2, .submit 2 m1, .progress 1 7, .progress 0 5, .interrupt 2, .progress 1 41,
    .progress 1 1000, .progress 0 50, .interrupt 0, .submit 2 m2, .progress 2 1000]
 
 example : (∀ e ∈ sampleSchedule, e.Wf) ∧
-    (run both sampleSchedule Conn.init).done = [m2] ∧
-    (run both sampleSchedule Conn.init).failed = true ∧
-    (run both sampleSchedule Conn.init).stream = m2.toVec ++ m1.toVec.take 50 := by
+    (run mlen both sampleSchedule Conn.init).done = [m2] ∧
+    (run mlen both sampleSchedule Conn.init).failed = true ∧
+    (run mlen both sampleSchedule Conn.init).stream = m2.toVec ++ m1.toVec.take 50 := by
   refine ⟨?_, by decide, by decide, by decide⟩
   intro e he
   simp only [sampleSchedule, List.mem_cons, List.not_mem_nil, or_false] at he
   rcases he with h | h | h | h | h | h | h | h | h | h | h | h <;> subst h <;>
     first | exact m1_wf | exact m2_wf | trivial
 
-example : (run both [.submit 0 m1, .progress 0 20] Conn.init).lock = some 0 := by decide
+example : (run mlen both [.submit 0 m1, .progress 0 20] Conn.init).lock = some 0 := by decide
 example : m1.toVec.length = 55 ∧ m2.toVec.length = 53 := by decide
 
 end Repe.C05
